@@ -16,14 +16,18 @@ def parseDKey (j : Json) : Except String DKey :=
   | .error _ =>
     match j.getObjVal? "i" with
     | .ok v => do return .int (← v.getInt?)
-    | .error _ => do
-      let id ← j.getObjValAs? Nat "l"
-      let v ← j.getObjValAs? Nat "v"
-      return .lit id v
+    | .error _ =>
+      match j.getObjVal? "x" with
+      | .ok v => do return .idx (← v.getInt?)       -- an `Index` object held as a dict key
+      | .error _ => do
+        let id ← j.getObjValAs? Nat "l"
+        let v ← j.getObjValAs? Nat "v"
+        return .lit id v
 
 def dkeyJson : DKey → Json
   | .str s => Json.mkObj [("s", s)]
   | .int i => Json.mkObj [("i", toJson i)]
+  | .idx i => Json.mkObj [("x", toJson i)]
   | .lit id v => Json.mkObj [("l", toJson id), ("v", toJson v)]
 
 def parsePKey (j : Json) : Except String PKey :=
